@@ -16,15 +16,22 @@ namespace Karp.Spec.LifecycleOrder
 open Karp.Lifecycle
 
 /-- `karpenter.sh/unregistered:NoExecute` -/
-def unregisteredTaint : Taint := ⟨"karpenter.sh/unregistered", "NoExecute"⟩
+def unregisteredTaint : Taint := { key := "karpenter.sh/unregistered", effect := "NoExecute" }
 
 /-- taints kubelet / the cloud controller manager / Karpenter put on a node while it starts -/
 def ephemeralTaints : List Taint := [
-  ⟨"node.kubernetes.io/not-ready", "NoSchedule"⟩,
-  ⟨"node.kubernetes.io/not-ready", "NoExecute"⟩,
-  ⟨"node.kubernetes.io/unreachable", "NoSchedule"⟩,
-  ⟨"node.cloudprovider.kubernetes.io/uninitialized", "NoSchedule"⟩,
+  { key := "node.kubernetes.io/not-ready", effect := "NoSchedule" },
+  { key := "node.kubernetes.io/not-ready", effect := "NoExecute" },
+  { key := "node.kubernetes.io/unreachable", effect := "NoSchedule" },
+  { key := "node.cloudprovider.kubernetes.io/uninitialized", effect := "NoSchedule" },
   unregisteredTaint]
+
+/-- Kubernetes identifies a taint by key and effect (a Node cannot carry two taints with the same key and effect);
+    the value (`--register-with-taints=key=value:effect`) and the `timeAdded` stamp are payload.  "The taint `t` is
+    on the node" therefore means: some taint of the node has `t`'s key and effect — whatever its value or stamp. -/
+def sameTaint (a b : Taint) : Bool := a.key == b.key && a.effect == b.effect
+
+def carries (ts : List Taint) (t : Taint) : Bool := ts.any (sameTaint t)
 
 /-- Node Readiness Controller taints -/
 def ephemeralPrefixes : List String := ["readiness.k8s.io/"]
@@ -73,15 +80,22 @@ def isTrue (c : Cond) : Bool := c.status == .true_
 /-- "node present and synced with the unregistered taint removed" -/
 def registeredPre (sp : Spec) (nodes : List Node) : Bool :=
   match nodes with
-  | [n] => n.regLabel && !n.taints.contains unregisteredTaint
+  | [n] => n.regLabel && !carries n.taints unregisteredTaint
            && n.finalizer && n.ownerRef && n.userLabels && n.provLabels
-           && (n.doNotSync || (sp.taints.all (fun t => n.taints.contains t) && sp.startup.all (fun t => n.taints.contains t)))
+           && (n.doNotSync || (sp.taints.all (fun t => carries n.taints t) && sp.startup.all (fun t => carries n.taints t)))
   | _ => false
+
+/-- "node Ready": the Node's `Ready` condition is there and its status is `True` — `Unknown` (the kubelet stopped
+    reporting) and a condition that was never posted are not Ready -/
+def nodeIsReady (n : Node) : Bool :=
+  match n.readyCond with
+  | .true_ => true
+  | .absent | .unknown | .false_ => false
 
 /-- "node Ready with startup and ephemeral taints gone and requested extended resources reported" -/
 def initializedPre (sp : Spec) (nodes : List Node) : Bool :=
   match nodes with
-  | [n] => n.ready && sp.startup.all (fun s => !n.taints.contains s) && n.taints.all (fun t => !isEphemeral t)
+  | [n] => nodeIsReady n && sp.startup.all (fun s => !carries n.taints s) && n.taints.all (fun t => !isEphemeral t)
            && (!sp.wantsRes || n.resOK)
   | _ => false
 
@@ -179,12 +193,45 @@ def historyOK (sp : Spec) : Acc → List StepObs → Bool
   | _, [] => true
   | a, o :: os => stepOK sp a o && historyOK sp (a.next o) os
 
+/-! ### Diagnostics (not part of the judgement) -/
+
+def showTaint (t : Taint) : String :=
+  (if t.value == "" then s!"{t.key}:{t.effect}" else s!"{t.key}={t.value}:{t.effect}") ++
+  (if t.stamp == "" then "" else s!"@{t.stamp}")
+
+def showReady : NodeReady → String
+  | .true_ => "True" | .false_ => "False" | .unknown => "Unknown" | .absent => "(no Ready condition)"
+
+/-- which condition went true without its precondition, and what about the Node is wrong -/
+def flipDetail (sp : Spec) (a : Acc) (o : StepObs) : String :=
+  let flipped (pick : Conds → Cond) : Bool :=
+    isTrue (pick o.claim.conds) && !(a.prev.present && isTrue (pick a.prev.conds)) && !(o.isRec && isTrue (pick o.view.conds))
+  let who := if o.isRec then "" else " by a step that is not a reconcile"
+  let l := if flipped (·.l) && !(o.isRec && a.created + okCreates o ≥ 1) then [s!"Launched=True{who} without an instance"] else []
+  let r := if flipped (·.r) && !(o.isRec && registeredPre sp o.nodes) then
+      [s!"Registered=True{who} but " ++ (match o.nodes with
+        | [n] => (match n.taints.find? (sameTaint unregisteredTaint) with
+            | some t => s!"the Node still carries the unregistered taint {showTaint t}"
+            | none => if !n.regLabel then "the Node has no registered label" else "the Node is not synced (finalizer / owner / labels / taints)")
+        | ns => s!"{ns.length} Nodes carry the provider id")] else []
+  let i := if flipped (·.i) && !(o.isRec && initializedPre sp o.nodes) then
+      [s!"Initialized=True{who} but " ++ (match o.nodes with
+        | [n] =>
+          if !nodeIsReady n then s!"the Node's Ready condition is {showReady n.readyCond}"
+          else match n.taints.find? (fun t => sp.startup.any (fun s => sameTaint s t)) with
+            | some t => s!"the startup taint {showTaint t} is still on the Node"
+            | none => match n.taints.find? isEphemeral with
+              | some t => s!"the ephemeral taint {showTaint t} is still on the Node"
+              | none => "the requested extended resource is not reported"
+        | ns => s!"{ns.length} Nodes carry the provider id")] else []
+  "; ".intercalate (l ++ r ++ i)
+
 /-- first violated clause, for diagnostics -/
 def firstViolation (sp : Spec) : Acc → List StepObs → Nat → Option String
   | _, [], _ => none
   | a, o :: os, i =>
     match (clauses sp a o).find? (fun p => !p.2) with
-    | some p => some s!"step {i}: {p.1}"
+    | some p => some (s!"step {i}: {p.1}" ++ (if p.1.startsWith "precondition" then s!" [{flipDetail sp a o}]" else ""))
     | none => firstViolation sp (a.next o) os (i + 1)
 
 end Karp.Spec.LifecycleOrder
